@@ -162,6 +162,13 @@ def r3_inside(ctx):
             else:
                 unknown.append("%s %s %s" % (ra, op, rb))
         want = {("E", ">=", "lo", "E"), ("E", "<=", "hi", "E"), ("N", ">=", "lo", "N"), ("N", "<=", "hi", "N")}
+        # the comparison must see the caller's values: an operand converted to a dtype that does not depend on it (bounds cast to
+        # the coordinates' dtype, coordinates cast to int, ...) truncates, and boundary points change side
+        casts = [(c, k) for op_, a, b in leaves if op_ != "?" for t in (a, b) for c, k in Q.narrowing_casts(t)]
+        lossy = [c for c, k in casts if k in ("narrowing", "integer")]
+        ctx.check("R3", qn + "|operands-compared-exactly", False if lossy else (None if casts else True), "coordinates and bounds are compared as given (no narrowing conversion)",
+                  bad="a comparison operand is converted with %s: values that the target dtype cannot represent are truncated before the test" % show(lossy[0])[:110] if lossy else "", fn=qn,
+                  undecided="a comparison operand is converted to a dtype that cannot be classified: %s" % show(casts[0][0])[:100] if casts else "")
         if got == want and not unknown:
             ctx.add("R3", qn + "|closed-box-predicate", "DISCHARGED", "the result is E >= W and E <= E_max and N >= S and N <= N_max (closed, axis-matched)", fn=qn)
         elif unknown:
@@ -251,6 +258,12 @@ def r5_project_region(ctx):
         if len(gc) == 1 and len(pr) == 1:
             a = pr[0][2]
             ok = True if len(a) == 2 and Q.unwrap(a[0]) == Q.sub(gc[0], 0) and Q.unwrap(a[1]) == Q.sub(gc[0], 1) and Q.arg(ctx, gc[0], "region") == ("param", "region") else None
+        if len(gc) == 1:
+            # the extreme of a projected rectangle need not be at a corner or on the diagonal: the whole 2-D grid must be projected
+            mgv = Q.arg(ctx, gc[0], "meshgrid")
+            ctx.check("R5", qn + "|full-2d-grid", True if mgv is None or mgv == const(True) else (False if mgv == const(False) else None),
+                      "the sampling grid is the full 2-D mesh of the region", bad="grid_coordinates is called with meshgrid=False: only the diagonal of the region is projected, "
+                      "so the box of a non-separable projection is too small", fn=qn)
         ctx.check("R5", qn + "|projects-a-grid-of-the-region", ok, "the projection is applied to the raveled (easting, northing) grid of the region", fn=qn)
         v = p.value
         ok = None
